@@ -33,7 +33,12 @@ Section Measure.
   Theorem C04_mean_identity : forall (mid mass : Q -> Q -> Q) xs o md rep fv a,
     (o + 1 < length xs)%nat -> (rep = 1 \/ rep = 2 \/ rep = 3 \/ rep = 4)%Z -> (fv = true \/ rep <> 1%Z) ->
     process_drift (tmass m1 l r) pinf err md rep fv a (compute_mu_h mid mass xs o) + mean_of_rates mid mass xs o
-    == md + mean_rate (tmass m1 l r) pinf rep fv a.
+    == md + mean_rate (tmass m1 l r) pinf rep fv a
+    (* ... where the right-hand side is the first cumulant of the measure restricted to [l, r] (needs np.inf beyond l, r) *)
+    /\ (rep = 1%Z -> mean_rate (tmass m1 l r) pinf rep fv a == a + m1 l r)
+    /\ (rep = 2%Z -> mean_rate (tmass m1 l r) pinf rep fv a == a)
+    /\ (rep = 4%Z -> fv = true -> mean_rate (tmass m1 l r) pinf rep fv a == a + m1 l r)
+    /\ tmass m1 l r (- pinf) pinf == m1 l r.
   Proof. intros. apply (mean_identity m1); assumption. Qed.
 
   (* the representation-conversion core: a~ + mu~ is the mean in every declared representation *)
@@ -97,10 +102,14 @@ Theorem C04_mean_identity_infinite_variation : forall (m1t : Q -> Q -> Q) pinf e
 Proof. exact mean_identity_iv. Qed.
 
 (* each margin of the (repaired) copula chain: MarkovChainLevyCopula.initialisation computes one drift per margin with the
-   margin's own triplet, flag and axis; every margin reproduces its own mean *)
+   margin's own triplet, flag and axis; every margin reproduces its own mean.  cm_ok (Proofs/C04_Drift.v): total additivity of
+   int x nu only for margins of finite variation; an infinite-variation margin needs a compensated representation and NO
+   hypothesis on its first-moment integral; the truncation bounds are the end points of the margin's own axis and np.inf lies
+   beyond them. *)
 Theorem C04_copula_margins : forall mid ms, Forall cm_ok ms ->
   Forall (fun m => cm_drift mid m + mean_of_rates mid (cm_mass m) (cm_xs m) (cm_o m)
-                   == cm_md m + mean_rate (cm_m1t m) (cm_pinf m) (cm_rep m) (cm_fv m) (cm_a m)) ms.
+                   == cm_md m + mean_rate (cm_m1t m) (cm_pinf m) (cm_rep m) (cm_fv m) (cm_a m)
+                   /\ (cm_fv m = true -> cm_m1t m (- cm_pinf m) (cm_pinf m) == cm_m1 m (headq (cm_xs m)) (lastq (cm_xs m)))) ms.
 Proof. exact copula_margins_mean. Qed.
 
 (* the diffusion matrix of the (repaired) copula chain, margin by margin: nothing is added to sigma_k^2 for a margin of finite
